@@ -79,6 +79,14 @@ fn base_instance(rng: &mut Rng, target: u64, kind: i32, bound: Option<(f64, f64)
     inst.decision_variables = vars;
     inst.objective = Some(f_linear(linear(vec![(target, 1.0)], 0.0)));
     inst.sense = SENSE_MIN;
+    // one instance in three has been through substitute(): one of the other variables (half the time the one
+    // with the largest id of all) is a dependent variable now, still defined, its value given by a function
+    if !ids.is_empty() && rng.chance(1, 3) {
+        let largest = *ids.iter().next_back().unwrap();
+        let dep = if largest > target && rng.bool() { largest } else { *rng.pick(&ids.iter().copied().collect::<Vec<_>>()) };
+        let f = if rng.bool() { f_linear(linear(vec![(target, 2.0)], 1.0)) } else { f_const(3.0) };
+        inst.decision_variable_dependency.insert(dep, f);
+    }
     inst
 }
 
